@@ -192,7 +192,7 @@ class Representation(ObjectWithFields):
                 seg.duration = dur
                 try:
                     for kid in atom.pssh.key_ids:
-                        key_ids.add(KeyMaterial(raw=kid))
+                        key_ids.add(KeyMaterial(raw=kid.data))
                 except AttributeError:
                     pass
                 tfdt = atom.traf.find_child('tfdt')
